@@ -738,16 +738,16 @@ pub fn sheet_name() -> impl Strategy<Value = String> {
 }
 
 pub fn defined_name() -> impl Strategy<Value = String> {
-    prop_oneof![6 => Just("nm1".to_string()), 2 => Just("nm2".to_string()), 1 => Just("Rate".to_string())]
+    prop_oneof![8 => Just("nm1".to_string()), 2 => Just("nm2".to_string()), 1 => Just("Rate".to_string())]
 }
 
 pub fn name_formula() -> impl Strategy<Value = String> {
     prop_oneof![
-        Just("Sheet1!$A$1".to_string()),
-        Just("Sheet1!$A$1:$B$3".to_string()),
-        Just("Sheet2!$C$2".to_string()),
-        Just("$B$2".to_string()),
-        Just("'New name'!$A$1".to_string()),
+        4 => Just("Sheet1!$A$1".to_string()),
+        3 => Just("Sheet1!$A$1:$B$3".to_string()),
+        1 => Just("Sheet2!$C$2".to_string()),
+        1 => Just("$B$2".to_string()),
+        1 => Just("'New name'!$A$1".to_string()),
     ]
 }
 
@@ -907,7 +907,9 @@ pub fn recording_op(profile: Profile) -> BoxedStrategy<Op> {
         1 => (sheet_sel(), 0..4i32).prop_map(|(s, n)| Op::FrozenCols(s, n)),
         1 => (sheet_sel(), any::<bool>()).prop_map(|(s, b)| Op::GridLines(s, b)),
     ];
-    let scope = || prop_oneof![5 => Just(None), 1 => sheet_sel().prop_map(Some)];
+    // few distinct (name, scope) pairs so that update / delete often address an existing name,
+    // and scope changes (global <-> sheet 0 <-> sheet 1) are common
+    let scope = || prop_oneof![3 => Just(None), 2 => Just(Some(0u8)), 1 => Just(Some(1u8))];
     let names = prop_oneof![
         3 => (defined_name(), scope(), name_formula()).prop_map(|(name, scope, formula)| Op::NameNew { name, scope, formula }),
         3 => (defined_name(), scope(), defined_name(), scope(), name_formula()).prop_map(
@@ -997,6 +999,55 @@ pub fn recording_op(profile: Profile) -> BoxedStrategy<Op> {
         ]
         .boxed(),
     }
+}
+
+/// A fixed, recorded prefix that creates the objects many operations need before they can succeed
+/// (a second sheet, values and formulas, a global and a sheet-scoped defined name, a named style,
+/// a conditional format, a link). Histories start with it half of the time, so that update /
+/// delete / apply operations on existing objects are exercised often.
+pub fn rich_setup(profile: Profile) -> Vec<Op> {
+    let inp = |s: u8, row: i32, col: i32, t: &str| Op::Input { s, row, col, text: t.to_string() };
+    let mut v = vec![
+        Op::NewSheet,
+        inp(0, 1, 1, "5"),
+        inp(0, 2, 2, "=A1*2"),
+        inp(0, 3, 1, "text"),
+        inp(1, 1, 1, "=Sheet1!A1+1"),
+    ];
+    if profile != Profile::Structural {
+        v.push(Op::NameNew { name: "nm1".into(), scope: None, formula: "Sheet1!$A$1".into() });
+        v.push(Op::NameNew { name: "nm1".into(), scope: Some(1), formula: "Sheet1!$A$1:$B$3".into() });
+        v.push(Op::NameNew { name: "nm2".into(), scope: Some(0), formula: "Sheet2!$C$2".into() });
+        v.push(inp(0, 4, 4, "=nm1+1"));
+        v.push(Op::NamedStyleCreate {
+            name: "MyStyle".into(),
+            style: Box::new({
+                let mut s = Style::default();
+                s.font.b = true;
+                s.num_fmt = "0.00".into();
+                s
+            }),
+            num_only: false,
+        });
+        v.push(Op::CfAdd {
+            s: 0,
+            range: "A1:B3".into(),
+            rule: Box::new(CfRuleInput::ColorScale {
+                thresholds: vec![
+                    ColorScaleThreshold { cfvo: Cfvo::Min, color: Color::Rgb("#FF0000".into()) },
+                    ColorScaleThreshold { cfvo: Cfvo::Max, color: Color::Rgb("#00FF00".into()) },
+                ],
+            }),
+        });
+        v.push(Op::LinkSet {
+            s: 1,
+            row: 3,
+            col: 3,
+            link: Link::External { target: "https://example.com".into(), tooltip: None },
+            label: Some("label".into()),
+        });
+    }
+    v
 }
 
 /// Run-time guards of the restricted profiles: returns a reason when the op must be skipped
